@@ -19,8 +19,8 @@ CHECKS = {
    text="Same scheduler model restricted to mutation operations: R1_Serial (a root has started resolvers only when all earlier roots are complete) checked by TLC over all schedules x failure placements x 6 flag sets; every schedule replayed: at every idle point at most one root has resolvers in flight, roots are entered in document order, nullable root failure does not stop later roots, non-null root failure nulls data, response keys in document order.",
    technique="TLA+ scheduler model (Sched.tla, serial executor) + TLC + schedule replay on a controlled asyncio loop"),
  "C15": dict(cat="model_checking", ref="§5/C15",
-   text="MC_multi.tla: 2-3 requests over one generated document (different operations, variables, resolver data incl. failures) in flight on one engine; TLC explores every interleaving of all their resolver completions and checks each answer equals the solo big-step answer (R1_Multi); every interleaving is driven through ONE real engine with all requests suspended on harness gates; each response, context identity per call, and the same requests re-run alone afterwards are compared with the prediction.",
-   technique="TLA+ multi-request scheduler model + TLC exhaustive interleavings + replay on a controlled asyncio loop"),
+   text="MC_multi.tla: 2-3 requests over one generated document (different operations, variables, resolver data incl. failures) in flight on one engine; TLC explores every interleaving of all their resolver completions and checks each answer equals the solo big-step answer (R1_Multi); every interleaving is driven through ONE real engine with all requests suspended on harness gates; each response, context identity per call, and the same requests re-run alone afterwards are compared with the prediction. R3: groups of 2-4 requests over DIFFERENT documents (drawn by TLC in simulation mode, with failures, fragments reusing names, widening fragments), started at different moments and interleaved at random, are recorded from the engine (every start / release with the pending sets of all requests) and validated by TLC against a product of independent scheduler specifications (Trace_multi.tla: a step of one request leaves the others untouched, every answer is that request's own big-step answer).",
+   technique="TLA+ multi-request scheduler model + TLC exhaustive interleavings replayed on a controlled asyncio loop + TLC trace validation of recorded multi-request executions (Trace_multi.tla)"),
  "C16": dict(cat="model_checking", ref="§5/C16",
    text="Engine.tla models the parse/validate cache as explicit LRU state; TLC checks coherence (cache[q] = PV(q)), boundedness and transparency (resp = Solo(req)) over every request sequence of length 4 over a pool of 7 (thorough: 12) requests (valid/invalid/broken documents, same text with other operation name or variables, str/bytes) for capacities 0, 1, 2, unbounded; every sequence is sent to real engines configured with cache off / lru_cache(1) / lru_cache(2) / default / a custom decorator, each response compared with the spec's prediction and with a fresh uncached engine; hit/eviction predictions are compared as coverage only.",
    technique="TLA+ cache/history model (Engine.tla) + TLC exhaustive request sequences + replay into engines with each cache configuration"),
@@ -31,16 +31,16 @@ CHECKS = {
    text="Conform.tla defines conformance of a response to selection and schema (exact collected keys in order, lists, non-null, leaf kinds, enum membership, possible types) and is evaluated BY TLC on recorded executions: (a) every leaf/list/abstract-typed field of the covering schema x every value-token representative (alone and inside lists), (b) documents drawn by TLC in simulation mode executed with seeded adversarial resolver outputs (wrong Python types, nested garbage, boundary numbers, exception instances, raising resolvers, unknown runtime types). Each record is one trace; TLC also checks the envelope, JSON-serialisability, 'no errors => data not null' and the error-coercer count.",
    technique="TLA+ conformance predicate (Conform.tla) evaluated by TLC on traces recorded from the engine (Trace_resp), documents generated by TLC -simulate"),
  "C10": dict(cat="model_checking", ref="§5/C10",
-   text="Scalars.tla gives, for Int/Float/String/Boolean/ID and the three directions (result, variable input, literal), the set of allowed outcomes over a universe of 49 value tokens (boundary classes around 0, +-1, +-2^31, +-2^53, huge, integral/fractional/denormal/non-finite floats, numeric/blank/unicode strings, bools, containers); TLC checks the laws (wire type, forbidden/required input kinds, literal = variable, idempotence, totality) over the whole universe and prints the 630 cells; every cell x every concrete representative is executed through the engine (echo fields) and on the scalar objects of the built schema; the observed outcome must be in the allowed set.",
+   text="Scalars.tla gives, for Int/Float/String/Boolean/ID and the three directions (result, variable input, literal), the set of allowed outcomes over a universe of 49 value tokens (boundary classes around 0, +-1, +-2^31, +-2^53, huge, integral/fractional/denormal/non-finite floats, numeric/blank/unicode strings, bools, containers); TLC checks the laws (wire type, forbidden/required input kinds, literal = variable, idempotence, totality) over the whole universe and prints the 630 cells; every cell x every concrete representative is executed through the engine (echo fields) and on the scalar objects of the built schema; the observed outcome must be in the allowed set; input cells are repeated at every position a scalar value can sit in (single value for a list, list item, inside list / object literals, object field); random boundary values are classified to tokens and their outcomes judged by TLC (Trace_scalar.tla).",
    technique="TLA+ decision tables with TLC-checked laws (Scalars.tla) + replay of every cell through the engine"),
  "C18": dict(cat="model_checking", ref="§5/C18",
-   text="Engine.tla classifies every request (syntax / validation / operation selection / variables / executed) and TLC checks that error classes answer data null and run nothing; the whole operation-selection x variables matrix is replayed under 3 error coercers x 3 contexts (coercer awaited once per error, its return value is the entry). Main part: mutated and random texts (str/bytes, invalid UTF-8, BOM, control characters, deep nesting, block strings) seeded from TLC-generated documents; each response is one trace judged by TLC (Envelope: dict with data, errors only when non-empty, string messages, path list-or-null, locations positive and inside the text, extensions only when set, JSON-serialisable; refused texts run nothing).",
+   text="Engine.tla classifies every request (syntax / validation / operation selection / variables / executed) and TLC checks that error classes answer data null and run nothing; the whole operation-selection x variables matrix is replayed under 4 error coercers x 3 contexts (coercer awaited once per error, its return value is the entry). Main part: mutated and random texts (str/bytes, invalid UTF-8, BOM, control characters, deep nesting, block strings) seeded from TLC-generated documents; each response is one trace judged by TLC (Envelope: dict with data, errors only when non-empty, string messages, path list-or-null, locations positive and inside the text, extensions only when set, JSON-serialisable; refused texts run nothing).",
    technique="TLA+ envelope invariant evaluated by TLC on traces recorded from the engine + TLC-enumerated request matrix replay"),
  "C04": dict(cat="model_checking", ref="§5/C04",
-   text="InputCoercion.tla transcribes CoerceVariableValues and input coercion (lists with single-value wrapping at every level, input objects with defaults / required / unknown fields, recursive input objects, enums, scalar leaves through Scalars.tla). TLC checks R1_Vars over 24k cells (66 declared types x default? x absent / candidate JSON values one mutation away from well-typed at every position): undeclared variables ignored, absent+default = default, explicit null kept, refusal iff a rule fails, type soundness, wrapping; plus a two-variable configuration (no masking). Every cell x 2 representatives is executed: refusal => data null, no resolver call, an error located in the offending variable's definition; otherwise the echo resolver sees exactly the predicted dictionary.",
+   text="InputCoercion.tla transcribes CoerceVariableValues and input coercion (lists with single-value wrapping at every level, input objects with defaults / required / unknown fields, recursive input objects, enums, scalar leaves through Scalars.tla). TLC checks R1_Vars over 24k cells (66 declared types x default? x absent / candidate JSON values one mutation away from well-typed at every position): undeclared variables ignored, absent+default = default, explicit null kept, refusal iff a rule fails, type soundness, wrapping; plus a two-variable configuration (no masking). Every cell x 2 representatives is executed: refusal => data null, no resolver call, an error located in the offending variable's definition; otherwise the echo resolver sees exactly the predicted dictionary; every candidate value is also used as the DEFAULT of a variable that is not provided (an invalid used default refuses the request).",
    technique="TLA+ input coercion spec (InputCoercion.tla) + TLC type-directed cell enumeration + replay through echo resolvers"),
  "C05": dict(cat="model_checking", ref="§5/C05",
-   text="Same specification, CoerceArgumentValues and literal coercion (valueFromAST incl. variables inside list/object literals). TLC checks R1_Ways for every (type, value): literal, variable, variable default, schema default, variable-in-list and variable-in-object spellings yield the same argument dictionary (or all fail), delivered values are well-typed. Every cell is executed in all applicable spellings at field AND directive argument positions, plus omitted / null literal / null variable / absent variable per type, plus ill-typed variables nested in literals (never delivered).",
+   text="Same specification, CoerceArgumentValues and literal coercion (valueFromAST incl. variables inside list/object literals). TLC checks R1_Ways for every (type, value): literal, variable, variable default, schema default, variable-in-list and variable-in-object spellings yield the same argument dictionary (or all fail), delivered values are well-typed. Every cell is executed in all applicable spellings at field AND directive argument positions, plus omitted / null literal / null variable / absent variable per type, plus ill-typed variables nested in literals (never delivered), schema defaults used repeatedly (resolvers modify what they receive), a second directive beside the one carrying the value, and subscription source / event resolver.",
    technique="TLA+ argument/literal coercion spec + TLC-checked equivalence of spellings + replay of every spelling through echo resolvers and directive hooks"),
  "C06": dict(cat="model_checking", ref="§5/C06",
    text="Validation.tla has one predicate per supported rule (26); TLC checks R1_SeedsValid: every document the generator emits satisfies all of them (so the generator is inside the language of valid documents). The seeds (two layouts, definitions in both orders) and the fragment/operation/directive/variable-heavy generator configurations (fragment DAGs with sharing and repeated spreads, fragments defined after use, variables flowing through fragments, several named operations, meta-fields) are executed: no error may carry a validation-rule tag; a refusal is reported against the rule that fired.",
